@@ -696,6 +696,7 @@ def function(
         if (intermediate_repr.get("returns") or {"return_type": {}})["return_type"].get(
             "default"
         )
+        not in (None, "")
         else None
     )
 
